@@ -387,9 +387,11 @@ impl<K1: Clone + Eq + Hash, K2: Copy + Eq + Hash, V: PartialEq> PartitionedCache
 
                     if dup_expiry == partition.next_expiry {
                         let mut new_next_expiry = expiry;
-                        for (_, e) in tuples {
-                            if *e < new_next_expiry {
-                                new_next_expiry = *e;
+                        for tuples in partition.records.values() {
+                            for (_, e) in tuples {
+                                if *e < new_next_expiry {
+                                    new_next_expiry = *e;
+                                }
                             }
                         }
                         partition.next_expiry = new_next_expiry;
